@@ -171,6 +171,17 @@ func openIndex(eng string, cp *corpus) (bleve.Index, error) {
 			b = idx.NewBatch()
 		}
 	}
+	// documents whose only date lies outside what an int64 of nanoseconds can hold: the field
+	// is not indexed for them, so they match no range and must never come back as hits
+	extras := 0
+	if cp.Typ == "date" {
+		for k, v := range []interface{}{time.Date(2500, 1, 1, 0, 0, 0, 0, time.UTC), "1500-03-01T00:00:00Z", time.Date(9999, 12, 31, 0, 0, 0, 0, time.UTC), "3000-01-01T00:00:00Z"} {
+			if err := b.Index(fmt.Sprintf("x%04d", k), map[string]interface{}{"t": v}); err != nil {
+				return nil, err
+			}
+			extras++
+		}
+	}
 	if err := idx.Batch(b); err != nil {
 		return nil, err
 	}
@@ -182,7 +193,7 @@ func openIndex(eng string, cp *corpus) (bleve.Index, error) {
 			}
 		}
 	}
-	if n, _ := idx.DocCount(); int(n) != len(cp.Docs) {
+	if n, _ := idx.DocCount(); int(n) != len(cp.Docs)+extras {
 		return nil, fmt.Errorf("index %s/%s holds %d of %d documents", eng, cp.Name, n, len(cp.Docs))
 	}
 	return idx, nil
@@ -326,6 +337,9 @@ func runSort(idx bleve.Index, cp *corpus, s sortSpec) (record, error) {
 	order := make([]int, 0, len(res.Hits))
 	for _, h := range res.Hits {
 		var d int
+		if strings.HasPrefix(h.ID, "x") {
+			continue // the documents without an indexable date: they hold no value of the field
+		}
 		if _, err := fmt.Sscanf(h.ID, "d%04d", &d); err != nil {
 			return record{cs: cs}, fmt.Errorf("unexpected hit id %q", h.ID)
 		}
